@@ -331,7 +331,7 @@ class ShortReader:
 
 
 def deliver(rng, data, form):
-    if form in ("str", "str-surrogate") and (data[:7].lower() in (b"http://", b"https:/") or len(data) < 8):
+    if form in ("str", "str-surrogate", "str-pass") and (data[:7].lower() in (b"http://", b"https:/") or len(data) < 8):
         form = "stream"             # parse(str) would fetch a URL / open a file of that name: C17's and the filesystem's business, not this check's
     if isinstance(data, str):
         return io.StringIO(data) if form in ("stream", "short") else data
@@ -343,6 +343,10 @@ def deliver(rng, data, form):
         return ShortReader(data, rng)
     if form == "str":
         return data.decode("utf-8", "surrogateescape") if False else data.decode("latin-1")
+    if form in ("str-pass", "textstream-pass"):
+        # the bytes are UTF-8 WITH surrogatepass: the str they denote holds the lone surrogates the case put there
+        t = data.decode("utf-8", "surrogatepass")
+        return io.StringIO(t) if form == "textstream-pass" else t
     if form == "str-surrogate":
         # a str (or text stream) may hold LONE SURROGATES (text decoded with surrogateescape / surrogatepass, JSON with unpaired \\uD800): no codec can encode them
         # (position, surrogate, padding and stream-or-str are functions of the data, so that a witness replays exactly)
@@ -406,7 +410,7 @@ def clobbering_element(data, headers, loose, opts, form):
     """names of the handler-less elements in `data` whose renaming (K -> K + 'x', start and end tags alike) makes the exception go away, else None"""
     import re
     import feedparser.mixin as mixin
-    if not isinstance(data, bytes) or form == "str-surrogate":
+    if not isinstance(data, bytes) or form in ("str-surrogate", "str-pass", "textstream-pass"):
         return None          # (the surrogate form derives its insertion point from the bytes: a renamed copy is another experiment)
     present, renamed = [], data
     for k in INTERNAL_KEYS:
@@ -506,6 +510,85 @@ def collision_cases(full):
                 yield "%s/inside-%s" % (k, outer), '<rss version="2.0" %s><channel><%s>%sx<atom:name>n</atom:name></%s><item><%s>%sy</%s></item></channel></rss>' % (COLLIDE_NS, outer, shape, outer, outer, shape, outer)
 
 
+SURR_DOCS = {
+    "rss": '<rss version="2.0" %s><channel>%s<item>%s</item></channel></rss>' % (COLLIDE_NS, COLLIDE_RICH, COLLIDE_RICH),
+    "atom": '<feed xmlns="http://www.w3.org/2005/Atom" %s>%s<entry>%s<title type="application/octet-stream">PHA+SGk8L3A+</title><content type="application/octet-stream" mode="base64">PHA+SGk8L3A+</content>'
+            '<summary type="xhtml"><div xmlns="http://www.w3.org/1999/xhtml">x <a href="r" title="t">y</a></div></summary><content type="html">&lt;a href="r"&gt;z&lt;/a&gt;</content></entry></feed>'
+            % (COLLIDE_NS, COLLIDE_RICH.replace("atom:", ""), COLLIDE_RICH.replace("atom:", "")),
+    "json": '{"version": "https://jsonfeed.org/version/1", "title": "T", "home_page_url": "http://e/", "author": {"name": "n", "url": "u"}, "items": [{"id": "1", "title": "t", "url": "u", '
+            '"content_html": "<p>h</p>", "summary": "s", "date_published": "2004-01-01T00:00:00Z", "tags": ["a"], "attachments": [{"url": "au", "mime_type": "m"}], "author": {"name": "an"}}]}',
+}
+SURR_CODECS = ["utf-7", "unicode_escape", "raw_unicode_escape", "unicode-escape", "UTF7"]
+
+
+def surrogate_cases(full):
+    """(label, bytes, headers, form): a LONE SURROGATE — which no codec can encode — at every text / attribute-value position of a document that uses every handler family
+    (the str and text-stream delivery forms), as a JSON escape, and produced by the codecs that decode to lone surrogates (utf-7, unicode_escape) under a header / a declaration"""
+    for name, doc in SURR_DOCS.items():
+        if name == "json":
+            pos = [i + 1 for i, ch in enumerate(doc) if ch == '"' and doc[i - 2:i] == ': ' or ch == '"' and doc[i - 1] == "["]
+        else:
+            pos = [i + 1 for i, ch in enumerate(doc[:-1]) if (ch == ">" and doc[i + 1] != "<") or (ch == '"' and doc[i - 1] == "=")]
+        step = 1 if full else 2
+        for n, i in enumerate(pos):
+            if n % step and not doc[max(0, i - 40):i].count("octet-stream"):
+                continue
+            sur = ["\ud800", "\udfff", "\udc80"][n % 3]
+            t = doc[:i] + sur + doc[i:]
+            yield "%s/text/%d" % (name, n), t.encode("utf-8", "surrogatepass"), None, ("str-pass" if n % 4 < 3 else "textstream-pass")
+            if full or n % 3 == 0 or doc[max(0, i - 40):i].count("octet-stream"):
+                # …and BEYOND the 8192-character prefix (the prefix is re-encoded, the rest of a text stream reaches the parsers as it is)
+                j = doc.index("{") + 1 if name == "json" else doc.index(">") + 1
+                pad = " " * 9000 if name == "json" else "<!-- " + "pad " * 2200 + "-->"
+                yield "%s/text-beyond-prefix/%d" % (name, n), (t[:j] + pad + t[j:]).encode("utf-8", "surrogatepass"), None, ("str-pass" if n % 4 < 2 else "textstream-pass")
+        if name == "json":
+            for esc in ('\\ud800', '\\udfff x', '\\ud800\\ud800'):
+                for i in pos[:: (1 if full else 3)]:
+                    yield "json/escape", (doc[:i] + esc + doc[i:]).encode("ascii"), {"content-type": "application/json"}, "bytes"
+    for cs in SURR_CODECS:
+        payloads = {"utf-7": "+2AA-", "UTF7": "+3/8-"}.get(cs, "\\ud800")
+        for pad in (0, 70000):
+            body = '<rss version="2.0"><channel><title>a%sb</title><item><title>%s%s</title><description>d%s</description></item></channel></rss>' % (payloads, "x" * pad, payloads, payloads)
+            yield "codec/%s/header/%d" % (cs, pad), body.encode("ascii"), {"content-type": "text/xml; charset=%s" % cs}, "stream"
+            yield "codec/%s/decl/%d" % (cs, pad), ('<?xml version="1.0" encoding="%s"?>' % cs + body).encode("ascii"), {"content-type": "application/xml"}, "bytes"
+            yield "codec/%s/decl-nohdr/%d" % (cs, pad), ('<?xml version="1.0" encoding="%s"?>' % cs + body).encode("ascii"), None, "short"
+
+
+def label_cases(full):
+    """(label, bytes, headers, form): EVERY spelling Python's codec registry knows for the encodings whose decoding depends on a BOM or on state (UTF-16 / UTF-32 / UTF-7 / UTF-8-SIG / HZ /
+    ISO-2022-*), and for the codecs that are not text encodings at all, named in the Content-Type header or in the XML declaration, for a document below and beyond the 64 KiB detection
+    prefix, encoded with that codec (with and without a BOM) or left in ASCII.  `full`: every alias of every codec"""
+    import encodings.aliases as ea
+    fam = ("utf_16", "utf_32", "utf_7", "utf_8_sig", "hz", "iso2022", "base64", "hex", "rot", "zlib", "bz2", "uu", "quopri", "idna", "punycode", "unicode_escape", "raw_unicode_escape",
+           "undefined", "mbcs", "oem", "charmap", "unicode_internal", "utf_8", "cp037", "cp1026")
+    labels = set()
+    for alias, target in ea.aliases.items():
+        if full or target.startswith(fam):
+            labels.update((alias, target, alias.replace("_", "-"), target.replace("_", "-")))
+    labels.update(["utf-16", "utf-32", "UTF-16", "Utf16", "u16", "u32", "U8", "utf-7", "unicode-1-1-utf-7", "unicode_escape", "x-user-defined", "utf-16-le", "utf16le", "ucs-2", "ucs-4", "ISO-10646-UCS-2", "csUnicode"])
+    item = "<item><title>x &#233; y</title><description>d</description></item>"
+    for lab in sorted(labels):
+        for pad in ((0, 1200) if True else (0,)):             # 1200 items of 58 characters: beyond 64 KiB in every encoding
+            body = '<rss version="2.0"><channel><title>t</title>%s</channel></rss>' % (item * (pad + 1))
+            decl = '<?xml version="1.0" encoding="%s"?>' % lab
+            encs = []
+            try:
+                encs.append(("own", (decl + body).encode(lab)))
+            except Exception:
+                pass
+            encs.append(("ascii", (decl + body).encode("ascii")))
+            if lab.lower().replace("_", "").replace("-", "") in ("utf16", "u16", "utf32", "u32", "ucs2", "ucs4"):
+                le = "utf-16-le" if "16" in lab or "2" in lab else "utf-32-le"
+                encs.append(("le-no-bom", (decl + body).encode(le)))
+                encs.append(("be-no-bom", (decl + body).encode(le.replace("le", "be"))))
+            for how, b in encs:
+                if pad and not full and how == "ascii" and not lab.lower().startswith(("u", "hz", "iso")):
+                    continue
+                yield "label/%s/header/%s/%d" % (lab, how, pad), b, {"content-type": "application/xml; charset=%s" % lab}, "stream"
+                if not pad or full:
+                    yield "label/%s/decl/%s/%d" % (lab, how, pad), b, None, "bytes"
+
+
 def gen_case(rng, vocab, pref_uri):
     k = rng.random()
     if k < 0.08:
@@ -546,9 +629,22 @@ def search(ctx, focus=None):
             distinct.add((data, loose, "bytes"))
             dist["key-collision"] = dist.get("key-collision", 0) + 1
             failures += judge(data, None, loose, {}, "bytes", "key-collision", rng)
+    # lone surrogates: deterministic, every run (both back ends; options alternate)
+    for j, (label, data, headers, form) in enumerate(surrogate_cases(ctx.thorough)):
+        for loose in (False, True):
+            n += 1
+            distinct.add((data, loose, form))
+            dist["lone-surrogate"] = dist.get("lone-surrogate", 0) + 1
+            failures += judge(data, headers, loose, OPTS[j % len(OPTS)], form, "lone-surrogate", rng)
+    # encoding labels: deterministic, every run
+    for j, (label, data, headers, form) in enumerate(label_cases(ctx.thorough)):
+        n += 1
+        distinct.add((data, j % 2 == 0, form, str(headers)))
+        dist["encoding-label"] = dist.get("encoding-label", 0) + 1
+        failures += judge(data, headers, j % 2 == 0, [{}, {"optimistic_encoding_detection": False}, {}][j % 3], form, "encoding-label", rng)
     dist["handler_vocabulary"] = len(vocab)
     return {"evaluations": n, "distinct_nontrivial": len(distinct), "failures": failures, "distribution": dist,
-            "rule": "KEY COLLISIONS (deterministic, every run): an element named like each of %d keys the handlers keep their own data under, as attributes-only / text-only (thorough: + both, empty; feed, entry or both levels), before a document that uses every handler family (RSS and Atom) and inside an open link / author / contributor / generator / source / image / category element, both back ends; " % len(COLLIDE_KEYS) +
+            "rule": "ENCODING LABELS (deterministic, every run): every spelling the codec registry knows for the BOM- or state-dependent encodings and for the non-text codecs (thorough: every alias of every codec), in the header or the XML declaration, document below and beyond the 64 KiB prefix, encoded with that codec / without BOM in either byte order / plain ASCII; LONE SURROGATES (deterministic, every run): a lone surrogate at the text / attribute-value positions of an RSS, an Atom (incl. base64 and inline-XHTML constructs) and a JSON document that use every handler family, handed over as str and as text stream; as a JSON escape; and produced by the codecs that decode to lone surrogates (utf-7, unicode_escape, raw_unicode_escape) named in a header or an XML declaration, below and beyond the detection prefix; KEY COLLISIONS (deterministic, every run): an element named like each of %d keys the handlers keep their own data under, as attributes-only / text-only (thorough: + both, empty; feed, entry or both levels), before a document that uses every handler family (RSS and Atom) and inside an open link / author / contributor / generator / source / image / category element, both back ends; " % len(COLLIDE_KEYS) +
                     "GeoRSS / GML geometries x srsDimension / srsName x 0-9 ordinates; DOCTYPE internal subsets declaring entities of every value shape (incl. malformed character references) referenced in the content; four input streams: (1) grammar fuzz over the handler vocabulary read from the tree (every _start_/_end_ name mapped back to prefix:local; random nesting, attributes, "
                     "text classes incl. numbers, dates, references of every class, CDATA, markup; balanced and unbalanced / unclosed / stray-end-tag / mismatched / self-nested), "
                     "(2) byte-level mutations of the repository's test corpus, (3) JSON of arbitrary shape incl. wrong types at every documented key, (4) arbitrary binary with every BOM "
